@@ -84,3 +84,102 @@ func VerifC11Inverse() {
 	zz.Assert(back == t, "inverse:ticks-of-duration-of-ticks")
 	zz.Reach("end")
 }
+
+// VerifC11TimeAt: a tempo map of n tempo events (non-decreasing ticks in file order, repeated ticks allowed,
+// first event possibly after tick 0, 24-bit tempi) and a query tick: TimeAt equals the exact integral of the
+// tempo map up to one microsecond per segment; monotone in the tick.
+func VerifC11TimeAt() {
+	n := zz.Param("n")
+	q := zz.U16("q")
+	zz.Assume(q >= 1 && q <= 32767)
+	s := &SMF{TimeFormat: MetricTicks(q)}
+	ticks := make([]int64, n)
+	uss := make([]int64, n)
+	var at int64
+	for i := 0; i < n; i++ {
+		ks := string(rune('a' + i))
+		at += int64(zz.U16("inc" + ks))
+		b0, b1, b2 := zz.U8("hi"+ks), zz.U8("mid"+ks), zz.U8("lo"+ks)
+		us := int64(b0)*65536 + int64(b1)*256 + int64(b2)
+		zz.Assume(us >= 1)
+		var bpm float64
+		Message{0xFF, 0x51, 0x03, b0, b1, b2}.GetMetaTempo(&bpm)
+		s.tempoChanges = append(s.tempoChanges, &TempoChange{AbsTicks: at, BPM: bpm})
+		ticks[i], uss[i] = at, us
+	}
+	t1 := int64(zz.U32("query"))
+	zz.Assume(t1 <= at+65535)
+	got := s.TimeAt(t1)
+	got = zz.InRange(got, 0, 1<<62, "timeat:non-negative")
+
+	// exact integral, scaled by q: sum over segments of (ticks in segment)*(microseconds per quarter)
+	// segment i runs from ticks[i] to ticks[i+1]; before the first event 500000 us per quarter (120 BPM);
+	// among events on one tick the last in file order is in force (its predecessors get empty segments)
+	var scaled int64
+	segs := int64(1)
+	prevTick, prevUs := int64(0), int64(500000)
+	for i := 0; i < n; i++ {
+		if ticks[i] < t1 { // the tempo at tick x is the last event with tick <= x; the integral runs over [0, t1)
+			scaled += (ticks[i] - prevTick) * prevUs
+			prevTick, prevUs = ticks[i], uss[i]
+			segs++
+		}
+	}
+	scaled += (t1 - prevTick) * prevUs
+	// |got - scaled/q| <= segs  (+1 for the truncation to whole microseconds)
+	zz.Assert(int64(q)*(got-segs-1) <= scaled, "timeat:not-above-the-exact-integral")
+	zz.Assert(scaled <= int64(q)*(got+segs+1), "timeat:not-below-the-exact-integral")
+	zz.Reach("end")
+}
+
+// VerifC11Map: longer tempo maps with concrete resolution and tempi from a small set, symbolic positions
+// (repeated ticks included): the float kernels become linear, so maps of n events are decided quickly.
+func VerifC11Map() {
+	n := zz.Param("n")
+	const q = 480
+	tempi := []int64{500000, 250000, 1000000, 333333}
+	s := &SMF{TimeFormat: MetricTicks(q)}
+	ticks := make([]int64, n)
+	uss := make([]int64, n)
+	var at int64
+	for i := 0; i < n; i++ {
+		ks := string(rune('a' + i))
+		switch {
+		case i == 0:
+			at += int64(zz.U16("inc" + ks))
+		case zz.Param("shape") == 1: // fixed shape: the second event shares the tick of the first, later ones move on
+			if i != 1 {
+				at += 1 + int64(zz.U16("inc"+ks))
+			}
+		case zz.Choice("same-tick"+ks, 2) == 0:
+			at += int64(zz.U16("inc" + ks))
+		}
+		us := tempi[zz.Choice("tempo"+ks, zz.Param("ntempi"))]
+		s.tempoChanges = append(s.tempoChanges, &TempoChange{AbsTicks: at, BPM: float64(60000000) / float64(us)})
+		ticks[i], uss[i] = at, us
+	}
+	t1 := int64(zz.U32("query"))
+	zz.Assume(t1 <= at+65535)
+	got := s.TimeAt(t1)
+	got = zz.InRange(got, 0, 1<<62, "map:non-negative")
+	var scaled int64
+	segs := int64(1)
+	prevTick, prevUs := int64(0), int64(500000)
+	for i := 0; i < n; i++ {
+		if ticks[i] < t1 {
+			scaled += (ticks[i] - prevTick) * prevUs
+			prevTick, prevUs = ticks[i], uss[i]
+			segs++
+		}
+	}
+	scaled += (t1 - prevTick) * prevUs
+	zz.Assert(q*(got-segs-1) <= scaled, "map:not-above-the-exact-integral")
+	zz.Assert(scaled <= q*(got+segs+1), "map:not-below-the-exact-integral")
+	if zz.Param("monotone") == 1 {
+		// monotone: a later tick is never earlier in time
+		t2 := t1 + int64(zz.U16("later"))
+		got2 := s.TimeAt(t2)
+		zz.Assert(got2 >= got, "map:monotone")
+	}
+	zz.Reach("end")
+}
